@@ -155,6 +155,10 @@ def shapes(tier):
                 if len(seq) > 3:
                     mc += 1
                 out.append(c13.session_shape(PROP, seq, config, max_checks=mc, with_optional=opt, with_worker=wk, obligations=obl))
+    # an optimisation cut short by its iteration limit, then enumeration
+    for config in ("incremental_maxiter1", "incremental_max_maxiter1") + (("incremental_maxiter2", "incremental_max_maxiter2") if thorough else ()):
+        for seq in [("solve", "another"), ("solve", "another", "another"), ("solve", "another_var")]:
+            out.append(c13.session_shape(PROP, seq, config, max_checks=5, obligations=obl))
     for tag, b in (("two_fixed_tasks", _inst_two_fixed), ("variable_duration", _inst_variable), ("optional_and_zero", _inst_optional),
                    ("alternative_workers", _inst_workers), ("cumulative_dynamic_optional", _inst_cumulative_dynamic)):
         out.append(enumeration_shape(tag, b))
